@@ -44,6 +44,8 @@ type Exec struct {
 	groups            map[string][][]Term
 	memoHits          int
 	noMemo            bool
+	pathCap           int
+	capHit            bool
 	lastAppendTrivial bool
 	canaryN           map[string]int
 }
